@@ -455,6 +455,12 @@ func runC06(c *Ctx) {
 	tg := newTextGen()
 	c.Cases(n, func(idx int64, r *Rng) {
 		gc, ac := randFullConfig(r)
+		if r.Chance(1, 40) {
+			// a core size is an unsigned 64-bit number: sizes from 2^63 on (not representable as a signed int) are
+			// configurations like any other for the structural predicate
+			gc.CoreSize = g.Address([]uint64{1 << 63, 1<<63 + 1, 1<<63 + 5, 1<<64 - 10, 1<<64 - 1, 3 << 62}[r.Intn(6)])
+			gc.ReadLimit, gc.WriteLimit = gc.CoreSize, gc.CoreSize
+		}
 		var text, class string
 		if r.Chance(1, 2) {
 			// near-valid mutation of a valid program
